@@ -178,6 +178,7 @@ func (sc *schedScenario) runOne(t *testing.T, j *vlib.Job, prefix []int) *sched.
 		x := &schedExec{j: j, prefix: prefix}
 		x.dir = freshDir(j)
 		sc.setup(x)
+		synctest.Wait() // background goroutines started by the setup have settled
 		s := sched.New(prefix, sc.points)
 		if sc.horizon > 0 {
 			s.Horizon = sc.horizon
@@ -227,7 +228,8 @@ func (sc *schedScenario) runOne(t *testing.T, j *vlib.Job, prefix []int) *sched.
 			res.Outcome, res.Violation, res.Class = sc.check(x)
 		}
 		if s.Deadlock {
-			// cannot tear down reliably: leave the goroutines; the worker will exit.
+			// cannot tear down reliably: the blocked goroutines stay behind in the dead bubble
+			bubbleLeakOK = true
 			return
 		}
 		if sc.teardown != nil {
